@@ -132,16 +132,20 @@ def ctyOf (defs : Defs Body) : Nat → List String → Expr → CTy
     arm of `?:`) -/
 def unsOf (defs : Defs Body) (f : Nat) (h : List String) (e : Expr) : Bool := ctyOf defs f h e == .ulong
 
-def arith (op : BinOp) (a b : Val) : Except PPErr Val :=
+/-- binary operators other than `&&`, `||`.  `strict = true`: behaviour C11 leaves undefined is
+    the outcome `undefinedBeh` (specification); `strict = false`: two's-complement wrap-around, as
+    the compiled `eval` of parse.c computes (chibicc).  Division by zero and shift counts outside
+    [0, 64) are errors in both. -/
+def arith (strict : Bool) (op : BinOp) (a b : Val) : Except PPErr Val :=
   let u := a.uns || b.uns
   let ai := (⟨a.bits, u⟩ : Val).int
   let bi := (⟨b.bits, u⟩ : Val).int
   let chk (r : Int) (bits : BitVec 64) : Except PPErr Val :=
-    if inRange u r then .ok ⟨bits, u⟩ else .error .undefinedBeh
+    if !strict || inRange u r then .ok ⟨bits, u⟩ else .error .undefinedBeh
   match op with
   | .mul => chk (ai * bi) (a.bits * b.bits)
   | .add => chk (ai + bi) (a.bits + b.bits)
-  | .sub => if u then .ok ⟨a.bits - b.bits, u⟩ else chk (ai - bi) (a.bits - b.bits)
+  | .sub => chk (ai - bi) (a.bits - b.bits)
   | .div =>
     if b.bits == 0 then .error .divZero
     else if u then .ok ⟨a.bits / b.bits, u⟩
@@ -149,7 +153,7 @@ def arith (op : BinOp) (a b : Val) : Except PPErr Val :=
   | .mod =>
     if b.bits == 0 then .error .divZero
     else if u then .ok ⟨a.bits % b.bits, u⟩
-    else if inRange false (Int.tdiv ai bi) then .ok ⟨BitVec.srem a.bits b.bits, u⟩ else .error .undefinedBeh
+    else chk (Int.tdiv ai bi) (BitVec.srem a.bits b.bits)
   | .band => .ok ⟨a.bits &&& b.bits, u⟩
   | .bxor => .ok ⟨a.bits ^^^ b.bits, u⟩
   | .bor => .ok ⟨a.bits ||| b.bits, u⟩
@@ -164,8 +168,8 @@ def arith (op : BinOp) (a b : Val) : Except PPErr Val :=
     let n := b.int
     if n < 0 || n ≥ 64 then .error .undefinedBeh
     else if a.uns then .ok ⟨a.bits <<< n.toNat, true⟩
-    else if a.int < 0 then .error .undefinedBeh
-    else if inRange false (a.int * 2 ^ n.toNat) then .ok ⟨a.bits <<< n.toNat, false⟩ else .error .undefinedBeh
+    else if strict && (a.int < 0 || !inRange false (a.int * 2 ^ n.toNat)) then .error .undefinedBeh
+    else .ok ⟨a.bits <<< n.toNat, false⟩
   | .shr =>
     let n := b.int
     if n < 0 || n ≥ 64 then .error .undefinedBeh
@@ -173,10 +177,10 @@ def arith (op : BinOp) (a b : Val) : Except PPErr Val :=
     else .ok ⟨a.bits.sshiftRight n.toNat, false⟩     -- implementation-defined for negative values: arithmetic (gcc, psABI)
   | .land | .lor => .error .fuel                      -- handled by `evalN` (short-circuit)
 
-def unop (op : UnOp) (v : Val) : Except PPErr Val :=
+def unop (strict : Bool) (op : UnOp) (v : Val) : Except PPErr Val :=
   match op with
   | .plus => .ok v
-  | .neg => if v.uns || inRange false (-v.int) then .ok ⟨-v.bits, v.uns⟩ else .error .undefinedBeh
+  | .neg => if !strict || v.uns || inRange false (-v.int) then .ok ⟨-v.bits, v.uns⟩ else .error .undefinedBeh
   | .bnot => .ok ⟨~~~v.bits, v.uns⟩
   | .lnot => .ok (.ofBool (!v.truth))
 
@@ -201,7 +205,8 @@ def fin (narrow : Bool) (ty : CTy) (r : Except PPErr Val) (flag : Bool) : R :=
 /-- Evaluation of a controlling expression.
     `narrow = false`: C11 6.10.1p4 (all arithmetic in intmax_t / uintmax_t).
     `narrow = true`:  chibicc (`const_expr` → `eval` in parse.c): the same, except that results of
-    nodes typed `int` are reduced to 32 bits.
+    nodes typed `int` are reduced to 32 bits and that signed arithmetic wraps around instead of
+    being undefined.
     `fuel` bounds the nesting of the expression plus macro bodies (running out is the explicit
     outcome `fuel`), `hide` = names being replaced (6.10.3.4p2). -/
 def evalN (narrow : Bool) (defs : Defs Body) : Nat → List String → Expr → R
@@ -217,7 +222,7 @@ def evalN (narrow : Bool) (defs : Defs Body) : Nat → List String → Expr → 
   | f+1, h, .un op e =>
     match evalN narrow defs f h e with
     | (.error x, fl) => (.error x, fl)
-    | (.ok v, fl) => fin narrow (ctyOf defs (f+1) h (.un op e)) (unop op v) fl
+    | (.ok v, fl) => fin narrow (ctyOf defs (f+1) h (.un op e)) (unop (!narrow) op v) fl
   | f+1, h, .bin .land a b =>
     match evalN narrow defs f h a with
     | (.error x, fl) => (.error x, fl)
@@ -240,7 +245,7 @@ def evalN (narrow : Bool) (defs : Defs Body) : Nat → List String → Expr → 
     | (.ok va, fl) =>
       match evalN narrow defs f h b with
       | (.error x, fl2) => (.error x, fl || fl2)
-      | (.ok vb, fl2) => fin narrow (ctyOf defs (f+1) h (.bin op a b)) (arith op va vb) (fl || fl2)
+      | (.ok vb, fl2) => fin narrow (ctyOf defs (f+1) h (.bin op a b)) (arith (!narrow) op va vb) (fl || fl2)
   | f+1, h, .cond c a b =>
     match evalN narrow defs f h c with
     | (.error x, fl) => (.error x, fl)
